@@ -79,6 +79,16 @@ def step (s : St) (line : String) : St × String :=
         ({ s with heap := h }, (match e with | none => "ok" | some e => s!"err {e.str}") ++ s!" mems {mems h}")
       | .error e => (s, s!"err {e.str} mems {mems s.heap}")
     | _, _ => (s, "bad-op")
+  | "upd" :: hname :: path :: rest =>
+    -- assignment of a value that may be an existing object: `upd <handle> <path> (obj <name>)`
+    match s.objs.lookup hname, (parseS (tokenize (" ".intercalate rest))).bind (fun x => hvOfS s.objs x.1) with
+    | some (bi, t, o), some v =>
+      match follow (getBuf s.heap bi).mem t o (parsePath path) with
+      | .ok (tt, a) =>
+        let (h, e) := hAssign tt v bi a s.heap
+        ({ s with heap := h }, (match e with | none => "ok" | some e => s!"err {e.str}") ++ s!" mems {mems h}")
+      | .error e => (s, s!"err {e.str} mems {mems s.heap}")
+    | _, _ => (s, "bad-op")
   | ["deep", hname] =>
     match s.objs.lookup hname with
     | some (bi, t, o) => (s, s!"val {deep (getBuf s.heap bi).mem t o}")
